@@ -135,13 +135,13 @@ def c06NumEq (a b c : String) : String :=
   match parseHex64 a, parseHex64 b, parseHex64 c with
   | some a, some b, some c =>
     let (a, b, c) := (ofBits a, ofBits b, ofBits c)
-    s!"{encBool (fcmp a b == .eq)} {encBool (fcmp b c == .eq)} {encBool (fcmp a c == .eq)} {encBool (fcmp a c == .lt)}"
+    s!"{encBool (fcmpRef a b == .eq)} {encBool (fcmpRef b c == .eq)} {encBool (fcmpRef a c == .eq)} {encBool (fcmpRef a c == .lt)}"
   | _, _, _ => "bad-op"
 
 def c06 (args : List String) : String :=
   match args with
-  | "ev" :: rest => c06Ev Cfg.engine rest
-  | "ref" :: rest => c06Ev Cfg.reference rest
+  | "ev" :: rest => c06Ev Cfg.reference rest
+  | "pinned" :: rest => c06Ev Cfg.engine rest
   | ["numeq", a, b, c] => c06NumEq a b c
   | _ => "bad-op"
 
